@@ -370,9 +370,10 @@ type World struct {
 	Delivered     map[string][]Delivered // operator id -> events in arrival order
 	nameSeq       int
 	pointHook     func(name string)
-	Exited        chan string     // workers that exited on their own (a supervisor restarts them)
-	PubHook       func(id uint64) // runs where the publication of a completed checkpoint begins (its own goroutine)
-	HandlerPanics []string        // RPC handlers that panicked (the worker process exits, as with util/httpu)
+	Exited        chan string      // workers that exited on their own (a supervisor restarts them)
+	wmTickers     []chan time.Time // the watermark tickers of every source runner deployed so far
+	PubHook       func(id uint64)  // runs where the publication of a completed checkpoint begins (its own goroutine)
+	HandlerPanics []string         // RPC handlers that panicked (the worker process exits, as with util/httpu)
 	// AvoidRedeploy, if set and true, makes a worker restart as a new process when
 	// it is asked to deploy a second time (open finding, excluded by construction)
 	AvoidRedeploy func() bool
@@ -596,6 +597,16 @@ func (w *World) installHooks() {
 	})
 	verifhook.SetTuner(func(name string, v any) {
 		switch name {
+		case "sourcerunner.watermark_ticker":
+			// the 200 ms watermark ticker of a source runner becomes the harness's: it
+			// ticks when the fault plan says so
+			tp := v.(**time.Ticker)
+			(*tp).Stop()
+			ch := make(chan time.Time, 4)
+			*tp = &time.Ticker{C: ch}
+			w.mu.Lock()
+			w.wmTickers = append(w.wmTickers, ch)
+			w.mu.Unlock()
 		case "dkv.options":
 			o := v.(*dkv.DBOptions)
 			if lf, ok := o.FileSystem.(*storage.LocalFilesystem); ok {
@@ -952,6 +963,19 @@ func (w *World) handlerPanic(t *Worker, call string, err *error) {
 	}
 	if err != nil {
 		*err = fmt.Errorf("%s unreachable (handler panicked)", t.Name)
+	}
+}
+
+// WatermarkTick makes every source runner's watermark ticker fire once.
+func (w *World) WatermarkTick() {
+	w.mu.Lock()
+	chs := append([]chan time.Time(nil), w.wmTickers...)
+	w.mu.Unlock()
+	for _, ch := range chs {
+		select {
+		case ch <- time.Now():
+		default:
+		}
 	}
 }
 
